@@ -114,8 +114,10 @@ func runCond(c *Case) *Obs {
 				held := L.heldByMe()
 				if err == nil {
 					h.add("ret-wait", w, "nil", held)
-				} else {
+				} else if err == ctx.Err() {
 					h.add("ret-wait", w, "err", held)
+				} else {
+					h.add("ret-wait", w, "other:"+err.Error(), held) // not the context's error
 				}
 				if held {
 					// leave the critical section as a real caller would
